@@ -40,6 +40,8 @@ ASSUMPTIONS = [
     "F.pad(replicate), F.conv1d(padding=1), F.conv{1,2,3}d(groups=C), slicing, torch.cat behave as documented",
     "mode='bspline': the cubic B-spline weights are taken from cubic_bspline_interpolation_weights as given (C14)",
     "the Lie bracket sign convention is the one of the code: lie_bracket(v, u) = Jac(v) u - Jac(u) v",
+    "data types: the model's scalars are exact rationals, so integer-dtype inputs (cast to float32 by the code) and the "
+    "FlowFields / FlowField / modules.Curl entry points are covered by the `entry_points` oracle only, not by a theorem",
 ]
 TRUSTED = ["model files Deepali/Model/{FD,FlowCalc}.lean are hand transcriptions of core/image.py "
            "(finite_differences, spatial_derivatives, conv1d), core/enum.py (SpatialDerivativeKeys, FlowDerivativeKeys), "
